@@ -179,6 +179,20 @@ func runE1(spec RunSpec, ch *Choices) *RunResult {
 			x.d.Logf("QUIESCENT q3 step=%d", x.d.Step)
 			x.checkProbe()
 			x.checkHangs("q3")
+			if x.probeRec.InvokeDone && x.probeRec.InvokeErr == nil {
+				// the same rpc once more: the dispatcher must hand its handler a fresh request
+				x.probeRec.InvokeDone, x.probeRec.ClientDone = false, false
+				x.probeRec.HStarted = false
+				x.runProbe()
+				if !x.d.Run() {
+					res.Inconcl = true
+					return finish()
+				}
+				x.checkPanics()
+				if connClosed(x.conn) == false && !(x.probeRec.InvokeDone && x.probeRec.InvokeErr == nil) {
+					x.viol("probe", "second probe rpc did not succeed on a connection that does not report closed", errStr(x.probeRec.InvokeErr))
+				}
+			}
 		}
 	}
 
